@@ -415,6 +415,77 @@ PROPS["C19"] = dict(
     assumptions=["no overflow / underflow in the sampled operands (moderate magnitudes)"],
 )
 
+GRID_CLASSES = {"1": "wrong result class or dart count", "2": "grid map ill-formed", "3": "topology differs from the regular mesh",
+                "4": "a vertex is not at its lattice point", "5": "wrong number of vertices", "6": "a face is not counter-clockwise",
+                "7": "face area differs from lx*ly", "8": "invalid descriptor accepted", "9": "C12:zero-count-panics"}
+
+
+def grid_family(pid, tier, seed):
+    out = os.path.join(hc.BUILD, "run", pid, "grid")
+    shutil.rmtree(out, ignore_errors=True)
+    os.makedirs(out)
+    res = dict(name="grid2-box", evaluations=0, cases=0, nontrivial=0, diffs=[], oracle_fail=[], oracle_ok=0, oracle_skipped=0,
+               oracle_unreadable=0, samples=[], hist={}, error=None, exhaustive=True)
+    box = {"quick": 5, "thorough": 9}[tier]
+    rc, log = hc.sh([hc.hbin("grid"), "--out", out, "--box", str(box)], timeout=1500)
+    if rc != 0:
+        res["error"] = "grid harness failed: " + log[-500:]
+        return [res]
+    cases = hc.read_cases(os.path.join(out, "cases.txt"))
+    impl = hc.read_obs(os.path.join(out, "impl.txt"))
+    model = hc.run_driver(30, ["%s %s" % kv for kv in cases.items()])
+    res["cases"] = len(cases)
+    res["evaluations"] = len(impl)
+    hist = {}
+    for (cid, k), line in impl.items():
+        hist[line.split()[0]] = hist.get(line.split()[0], 0) + 1
+        if model.get((cid, 0)) != line and len(res["diffs"]) < 50:
+            res["diffs"].append(dict(case=cid, step=0, case_line=cases[cid], impl=line[:300], model=(model.get((cid, 0)) or "")[:300]))
+    res["hist"] = {"result_class": hist}
+    res["nontrivial"] = sum(1 for l in impl.values() if l.startswith("0 ") and len(l.split()) > 12)
+    orc = [l.rstrip("\n") for l in open(os.path.join(out, "orc.txt"))]
+    verd = hc.run_driver(31, orc)
+    byid = {l.split(" ", 1)[0]: l for l in orc}
+    for (cid, _), v in verd.items():
+        t = v.split()
+        if t[0] == "1":
+            res["oracle_ok"] += 1
+        elif t[0] == "2":
+            res["oracle_skipped"] += 1
+        elif t[0] == "0":
+            res["oracle_fail"].append(dict(oracle="grid2_spec", cls=GRID_CLASSES.get(t[1], t[1]), case=cid, step=0,
+                                           case_line=cases[cid], obs=impl.get((cid, 0), "")[:400]))
+        else:
+            res["oracle_unreadable"] += 1
+    # the three descriptor forms give the same mesh
+    for l in open(os.path.join(out, "groups.txt")):
+        ids = l.split()[1:]
+        d0 = impl.get((ids[0], 0))
+        if any(impl.get((i, 0)) != d0 for i in ids[1:]):
+            res["oracle_fail"].append(dict(oracle="descriptor-forms", cls="the three descriptor forms give different meshes", case=ids[0],
+                                           step=0, case_line=" | ".join(cases[i] for i in ids)))
+        else:
+            res["oracle_ok"] += 1
+    res["samples"] = ["%s %s" % kv for kv in list(cases.items())[:3]]
+    return [res]
+
+
+PROPS["C12"] = dict(
+    level="proof",
+    level_text="the beta tables of the 2D builders are TRANSLATED from grid.rs on every run (tools/tr_grid.py); Coq theorems, for "
+               "ALL positive sizes: the generated tables equal the specification tables (index bijection + finite table "
+               "facts), the resulting map is well-formed, faces are the per-cell cycles, neighbours are glued exactly along "
+               "shared sides with a free rim. Vertex positions/counts, orientation/area, descriptor equivalence, error "
+               "clauses and the 3D builder: exhaustive box of sizes, model vs implementation and extracted oracle (partial)",
+    technique="translator (Rust tables -> Gallina) + Coq proof for all sizes + exhaustive-box correspondence and oracle",
+    translators=True,
+    families=[],
+    extra=[grid_family],
+    trusted=["Coq 8.16.1 kernel", "translator tools/tr_grid.py", "extraction + OCaml driver", "Rust harness grid.rs",
+             "hand-written model of parse_2d and of the vertex placement loops (GridRun.v)"],
+    assumptions=["usize arithmetic does not overflow for the sizes at hand (model uses Z)"],
+)
+
 ALLOC_CLASSES = {"1": "allocation id or counts wrong", "2": "appended slot not blank", "3": "C18:stale-slot-on-reuse",
                  "4": "removal wrongly accepted or refused", "5": "unrelated state changed by allocation/removal",
                  "6": "reused slot not free or still flagged"}
